@@ -24,6 +24,7 @@ import NemoVerif.Lemmas.GroupCoreVMOrRun
 import NemoVerif.Lemmas.GroupCoreVMExit
 import NemoVerif.Lemmas.GroupCoreVMOrStart
 import NemoVerif.Lemmas.GroupCoreVMMirror
+import NemoVerif.Lemmas.GroupCoreVMAdvance
 namespace NemoVerif.C07
 open NemoVerif NemoVerif.Dnf NemoVerif.GroupExpand NemoVerif.GroupVM
 
@@ -1188,5 +1189,38 @@ example (es : List Nat) :=
       have h2 : ¬ ("h0" = CoreVM.uidOf m) := fun e => uidOf_ne_h0 m e.symm
       simp [exVMRootGen, OMap.lookup, this, h2])
     es
+
+/-- **groupvm_is_corevm_partial (the interpreter model's real `_advance_head_front` on a matching member head).**  The segment theorems
+    drive `slide` through the stand-in `advanceMember` (`head.position += 1; slide`).  This theorem shows that CoreVM's own
+    `advanceHeadFront` — with its flow-status bookkeeping, the try/except around `slide`, the "all heads are waiting" scan, the finished /
+    aborted handling and the final filter — does exactly that on a matching member head of an and-clause (flow STARTED, every head inside
+    the program): the head parks on `WaitForHeads n` or ends MERGING on `MergeHeads` according to the count of parked heads, nothing
+    else changes, and the head is handed back as actionable iff it is MERGING (so that the merging loop advances it again). -/
+theorem groupvm_is_corevm_partial_advance_head_front (fuel : Nat) (s : CoreVM.VM) (f : CoreIndex.FUid) (h : CoreIndex.HUid)
+    (i : CoreIndex.Inst) (x : CoreVM.InstX) (cfg : CoreVM.FlowCfg) (hd : CoreIndex.Head) (l u : String) (pe n : Nat)
+    (H : CoreVM.HeadAt s f h i x cfg hd) (hown : x.ctxOwner = none) (hact : hd.status = .active) (hstarted : i.status = .started)
+    (C : CoreVM.ClauseShape cfg l u pe n)
+    (hgoto : cfg.elements[hd.pos + 1]! = .goto (.lit (.bool true)) l) (hlt : hd.pos + 1 < pe + 1)
+    (hnd : ((CoreVM.hview i).map (·.1)).Nodup) (hrange : ∀ o ∈ i.heads, o.pos < cfg.elements.size) :
+    ∃ s' i', CoreVM.advanceHeadFront (fuel + 4) [(f, h)] s
+        = .ok (if ((CoreVM.hview i).filter fun t => t.2.2 ≠ .inactive && t.2.1 = pe + 1).length + 1 ≥ n then [(f, h)] else []) s' ∧
+      CoreVM.FlowAt s' f i' x cfg ∧ s'.r = s.r ∧
+      CoreVM.hview i' = (CoreVM.hview i).map
+        (if ((CoreVM.hview i).filter fun t => t.2.2 ≠ .inactive && t.2.1 = pe + 1).length + 1 ≥ n
+          then CoreVM.setCore h (pe + 2) .merging else CoreVM.setCore h (pe + 1) .active) :=
+  CoreVM.advanceHeadFront_member fuel s f h i x cfg hd l u pe n H hown hact hstarted C hgoto hlt hnd hrange
+
+/-- `match E0() and E1()` in a STARTED flow: the root INACTIVE on the fork, both member heads on their match elements -/
+def exIxsStarted : CoreVM.IxS := exIxs.apply (.setFlowStatus "m" .started) (by decide)
+def exVMStarted : CoreVM.VM := { ixs := exIxsStarted, r := { prog := { flows := [exCfgAnd] }, fx := [("m", exXFork)] } }
+def exInstStarted : CoreIndex.Inst := { exInst with status := .started }
+
+-- non-vacuity of `groupvm_is_corevm_partial_advance_head_front`
+example :=
+  groupvm_is_corevm_partial_advance_head_front 1 exVMStarted "m" "h1" exInstStarted exXFork exCfgAnd
+    { uid := "h1", pos := 4, status := .active, elem := none } "e" "u" 13 2
+    { hi := rfl, hx := rfl, hc := rfl, hh := rfl, hlt := by decide, hst := by decide } rfl rfl rfl
+    { hl := rfl, hsize := by decide, hw := rfl, hm := rfl } rfl (by decide) (by decide)
+    (by intro o ho; simp [exInstStarted, exInst] at ho; rcases ho with rfl | rfl | rfl <;> decide)
 
 end NemoVerif.C07
